@@ -41,3 +41,8 @@ package markdown
 //@   requires c != nil
 //@   loop 1 invariant c != nil
 //@   loop 2 invariant c != nil && wfCfg(md)
+
+//@ unit constructors_sweep props=C11 nilchecks=on nonnil_params=on filter=`markdown\.(SetTemplate|GetDefaultTemplate)$`
+//@ // constructors and helpers that this directive's setup calls but that live outside setup.go: the same safety sweep
+//@ // (index, slice, division, nil-map store, nil dereference, explicit panic) as for the setup code itself
+//@ use @verif/specs/stdlib.spec:stdlib
